@@ -518,6 +518,42 @@ def threaded_round(rec, texts, base, nthreads, p, seed, rounds_per_thread, first
             rec.key(["threads", nthreads, p, texts[i]["text"][:200], i])
 
 
+def edit_in_place(ch) -> bool:
+    """in-place edits of a returned chart's mutable containers (whatever is a list or dict; tuples and frozen things are left alone)"""
+    done = False
+
+    def wreck(x):
+        nonlocal done
+        try:
+            if isinstance(x, list) and x:
+                x.reverse()
+                x.append(x[0])
+                del x[1:]
+                done = True
+            elif isinstance(x, dict) and x:
+                x.pop(next(iter(x)))
+                done = True
+        except Exception:  # noqa
+            pass
+
+    try:
+        st, ge = ch.sync_track, ch.global_events_track
+        for x in (getattr(st.bpm_events, "events", None), st.time_signature_events, st.anchor_events, ge.text_events, ge.section_events, ge.lyric_events):
+            wreck(x)
+        for m in list(ch.instrument_tracks.values()):
+            for tr in list(m.values()):
+                for n in list(tr.note_events)[:3]:
+                    wreck(n.sustain if isinstance(n.sustain, list) else None)
+                wreck(tr.note_events)
+                wreck(tr.star_power_events)
+                wreck(tr.track_events)
+            wreck(m)
+        wreck(ch.instrument_tracks)
+    except Exception:  # noqa
+        pass
+    return done
+
+
 def history(rec, rng, texts, base, steps):
     prev = None
     last_chart = {}
@@ -582,6 +618,14 @@ def history(rec, rng, texts, base, steps):
                                   {"kind": "history", "texts": [{"text": x["text"], "want": x["want"], "path_bytes_hex": x.get("path_bytes_hex")} for x in texts],
                                    "sequence": seq[-60:], "held": [hi_, hs - (s - min(s, 59))]}, "earlier-chart-changed-by-later-parse")
                     return
+        if got["ok"] and rng.random() < 0.12:
+            # what an application got is the application's: it filters, sorts and clears the lists of a returned chart IN PLACE for its
+            # own purposes (a chart it then throws away). No later parse - of this text or any other - may show a trace of that: a
+            # returned container that is also a cache entry, a class-level default or another chart's attribute would
+            junk = harness.parse(t["text"], harness.pairs([tuple(p) for p in t["want"]]) if t["want"] else None)
+            if junk.ok and edit_in_place(junk.chart):
+                rec.cls("history:application_edited_a_returned_chart_in_place")
+            del junk
         if got["ok"] and getattr(_LAST, "chart", None) is not None and rng.random() < 0.25:
             held.append((i, _LAST.chart, s))
             if len(held) > 4:
